@@ -104,7 +104,7 @@ struct limits
   int max_depth = 64;
   std::uint64_t max_states = 4000000;
   int workers = 16;
-  int hang_s = 20;
+  int hang_s = 90;
 };
 
 struct rec
